@@ -55,6 +55,9 @@ type c11Case struct {
 	// conc stream
 	Workers int `json:"workers,omitempty"`
 	PerW    int `json:"per_worker,omitempty"`
+	// sched stream: one program per goroutine and the controlled schedule (thread picks)
+	Threads [][]c11Op `json:"threads,omitempty"`
+	Sched   []int     `json:"sched,omitempty"`
 }
 
 var (
@@ -1038,10 +1041,14 @@ func c11Class(c *c11Case) string {
 func init() {
 	props["C11"] = func(ctx *Ctx) {
 		ctx.Header("SnapshotCorr")
-		ctx.Res.Rule = "case = (registry shard count, root prefix and tags, history of record / get / Close / Snapshot operations addressed by derivation paths, Snapshot being called on the test scope or on any scope derived from it; every tag map handed to NewTestScope / Tagged is overwritten by the caller as soon as the call returns); generated from the seed; non-trivial = at least one snapshot with at least two entries; distinct by history hash. Streams dup / delim / dot replay the known findings; conc = snapshots concurrent with recording (bounds only)"
+		ctx.Res.Rule = "case = (registry shard count, root prefix and tags, history of record / get / Close / Snapshot operations addressed by derivation paths, Snapshot being called on the test scope or on any scope derived from it; every tag map handed to NewTestScope / Tagged is overwritten by the caller as soon as the call returns); generated from the seed; non-trivial = at least one snapshot with at least two entries; distinct by history hash. Streams dup / delim / dot replay the known findings; conc = snapshots concurrent with recording (bounds only); sched = goroutines deriving, recording and closing subscopes under controlled interleavings over the registry's and the metric getters' yield points (final snapshot = tally of all operations)"
 		one := func(c *c11Case) {
 			if c.Stream == "conc" {
 				c11Conc(ctx, c)
+				return
+			}
+			if c.Stream == "sched" {
+				c11Sched(ctx, c)
 				return
 			}
 			in, obs, pred, fail := c11Run(c)
@@ -1094,6 +1101,11 @@ func init() {
 		nd := ctx.N(60, 1200)
 		for i := 0; i < nd; i++ {
 			c := c11Gen(ctx.R, i, "dup")
+			one(&c)
+		}
+		ns := ctx.N(160, 2500)
+		for i := 0; i < ns; i++ {
+			c := c11SchedGen(ctx.R, i)
 			one(&c)
 		}
 		nc := ctx.N(8, 60)
